@@ -549,7 +549,7 @@ class SpecGen:
         for _ in range(r.randint(2, 4)):
             self.leaf()
         kinds = cfg["kinds"]
-        weights = {"dataset": 4, "derive": 2}
+        weights = {"dataset": 4, "derive": 2, "dsclass": 3}
         for _ in range(cfg["n_internal"]):
             k = r.choices(kinds, [weights.get(x, 1) for x in kinds])[0]
             getattr(self, "g_" + k)()
